@@ -480,13 +480,14 @@ def stepA2 (st : St2) (t : Nat) (kind obj ord old new ok : String) : Except Stri
     do
     let st ← flush2 st t
     if st.slabFill.isSome && (st.slabFill.map (·.1)) == some t then .error "alloc_slab: fewer node constructions than SLAB_NODES"
+    let st0 := st      -- τ steps are not taken for lines that turn out to be HybridMutex-internal
     let st ← taus2 st t 8
     let role := roleOfObj st obj
     let onMutex := role == some Role.cmState || role == some Role.cm
     let lockBitChanges := role == some Role.cmState && (bit0 old != bit0 new)
     let e := expect st.cfg st.s t
-    if kind == "spin" || kind == "yield" then .ok (st, ["mutex-internal"])
-    else if onMutex && !lockBitChanges then .ok (st, ["mutex-internal"])
+    if kind == "spin" || kind == "yield" then .ok (st0, ["mutex-internal"])
+    else if onMutex && !lockBitChanges then .ok (st0, ["mutex-internal"])
     else
     match e with
     | .lock =>
@@ -496,11 +497,11 @@ def stepA2 (st : St2) (t : Nat) (kind obj ord old new ok : String) : Except Stri
           let st1 ← advance2 st t
           .ok (st1, ["mutex-lock"] ++ branchTags2 st t)
       else if kind == "park" then
-        if st.s.token t then .ok (envTok st t false, ["mutex-internal", "mutex-park"])
+        if st.s.token t then .ok (envTok st0 t false, ["mutex-internal", "mutex-park"])
         else .error "park inside consumer.lock() but the model has no token for this thread"
       else if kind == "unpark" then
         match threadNum obj with
-        | some x => .ok (envTok st x true, ["mutex-internal", "mutex-unpark"])
+        | some x => .ok (envTok st0 x true, ["mutex-internal", "mutex-unpark"])
         | none => .error "bad unpark"
       else .error s!"model expects the consumer mutex to be acquired"
     | .unlock =>
@@ -515,7 +516,7 @@ def stepA2 (st : St2) (t : Nat) (kind obj ord old new ok : String) : Except Stri
       if kind == "unpark" && (a.kind != "unpark" || !objOk) then
         -- wake_next of a HybridMutex unlock
         match threadNum obj with
-        | some x => .ok (envTok st x true, ["mutex-internal", "mutex-unpark"])
+        | some x => .ok (envTok st0 x true, ["mutex-internal", "mutex-unpark"])
         | none => .error "bad unpark"
       else if lockBitChanges then .error s!"consumer mutex LOCKED bit changed outside lock/unlock; model=[{showAct a}]"
       else if a.kind != kind then .error s!"model=[{showAct a}]"
@@ -541,7 +542,7 @@ def stepA2 (st : St2) (t : Nat) (kind obj ord old new ok : String) : Except Stri
     | e =>
       if kind == "unpark" then
         match threadNum obj with
-        | some x => .ok (envTok st x true, ["mutex-internal", "mutex-unpark"])
+        | some x => .ok (envTok st0 x true, ["mutex-internal", "mutex-unpark"])
         | none => .error "bad unpark"
       else .error s!"model expects {reprStr e}"
 
